@@ -6,6 +6,9 @@ import json, os
 HOOK_COMMITS = []  # filled from git below
 
 CHECKS = {
+    "C02": ("exploration", "model-based stateful PBT: routing table vs reference set + sort",
+            "Histories of join/add/failure/evict over ids drawn by bucket (incl. the local id and repeats) on a real DhtCoreEngine; the table must list each peer once and never the local node; find_nodes / FindNode / FindValue answers must equal the first min(n,|M|) entries of the reference set sorted by XOR distance, with the 20 / 8 protocol caps. The manager-reply clause is checked by the memnet sub-check once present.",
+            "Membership after an add is read back from the table and constrained (nothing lost/foreign, acknowledged ids present) rather than re-modelled.", "5/C02"),
     "C10": ("exploration", "stateful PBT over report histories: distribution invariants + differential (two engines) + metamorphic one-extra-report relations",
             "Generated histories of local-trust statements, all nine statistics updates (amounts to 2^40), anchor changes and node removals; after compute: finite scores in [0,1], sum 1 (or all 0), a second engine fed the same history agrees within 1e-6, get_trust equals the computed score and is 0 for unknown ids; one more success never lowers / one more failure never raises the target's score, corrupted-data and protocol-violation cost at least a failure.",
             "Runs on tokio's paused clock; monotonicity is asserted for statistics reports, not for pairwise local-trust statements.", "5/C10"),
